@@ -1,295 +1,217 @@
-import Bee2V.C18.Model
+/-
+C18 — property theorems: for EVERY number of threads, EVERY assignment of operation
+sequences to the threads (grammar of the property: use/close only while holding a reference)
+and EVERY schedule (sequentially consistent interleaving, every resolution of the
+environment's choices), about the model of Bee2V/C18/Model.lean.
+Helper lemmas and invariants: Inv.lean, Inv2.lean, Log.lean.
+-/
+import Bee2V.C18.Log
 import Bee2V.Gen.C18
 
 namespace Bee2V.C18
 
 /-! ### Tie (a): the model's access table is the one extracted from the current C source -/
 
+/-- The shared-access table regenerated from rng.c / mt.c (which variable, read or write,
+through an atomic primitive or not, with the mutex held or not, in source order) coincides
+with the table of the model.  Moving an access out of the critical section, dropping a lock,
+turning the atomic publication of the trigger into a plain store, … changes the left side. -/
 theorem table_matches : normTable Bee2V.Gen.C18.table = normTable table := by decide
 
-/-! ### Reachability -/
+/-! ### Mutual exclusion and lock discipline -/
 
-inductive Reach (n : Nat) (progs : Nat → List Op) : Cfg → Prop
-  | init : Reach n progs (init n progs)
-  | step {c c' : Cfg} {t ch : Nat} : Reach n progs c → step c t ch = some c' → Reach n progs c'
+theorem mutual_exclusion {n : Nat} {progs : Nat → List Op} {c : Cfg} (h : Reach n progs c) (t u : Nat)
+    (ht : inCS (c.th t).pc = true) (hu : inCS (c.th u).pc = true) : t = u := by
+  have hi := inv_reach h
+  have a := (hi.owner t).1 ht
+  have b := (hi.owner u).1 hu
+  rw [a] at b
+  exact Option.some.inj b
 
-@[simp] theorem setTh_same (th : Nat → TState) (t : Nat) (T : TState) : setTh th t T t = T := by simp [setTh]
-@[simp] theorem setTh_other (th : Nat → TState) (t u : Nat) (T : TState) (h : u ≠ t) : setTh th t T u = th u := by
-  simp [setTh, h]
-
-/-- case split of a local step on the program counter of the moving thread; afterwards
-`sh'`, `T'` are replaced by the explicit results -/
-macro "local_cases" h:ident T:ident : tactic => `(tactic| (
-  obtain ⟨pc, prog, refs, src, kind, blocks, tmp, results⟩ := $T:ident
-  cases pc <;> simp only [stepLocal] at $h:ident
-  all_goals (try split at $h:ident)
-  all_goals (try split at $h:ident)
-  all_goals (cases $h:ident)))
-
-/-! ### Classes of program counters -/
-
-/-- inside rngInit / before the publication of the trigger -/
-def initPc : Pc → Bool
-  | .iMtx | .iExit | .iSet | .oPub => true
+def guarded : Loc → Bool
+  | .ctr | .state | .gen => true
   | _ => false
 
-/-- the thread has passed the once-gate (or holds a reference obtained through it) -/
-def postOnce : Pc → Bool
-  | .idle | .oCas | .iMtx | .iExit | .iSet | .oPub | .vOnce => false
-  | _ => true
+def allPcs : List Pc := [.idle, .oCas, .iMtx, .iExit, .iSet, .oPub, .cInited, .cLock, .cCtr, .cBump, .cAlloc,
+  .cEntropy, .cSetCtr, .cUnlockOk, .cUnlockErr, .vOnce, .vInited, .vLock, .vBody, .vUnlock, .xLock, .xDec,
+  .xFree, .xUnlock, .uLock, .uBody, .uUnlock]
 
-/-- about to acquire the mutex -/
-def lockPc : Pc → Bool
-  | .cLock | .vLock | .xLock | .uLock => true
-  | _ => false
+theorem mem_allPcs (p : Pc) : p ∈ allPcs := by cases p <;> simp [allPcs]
 
-/-- rngClose / rngStep* in progress before the reference is given back -/
-def holdPc : Pc → Bool
-  | .xLock | .xDec | .uLock | .uBody | .uUnlock => true
-  | _ => false
+theorem guarded_inCS_tab : (allPcs.all fun p => (accs p).all fun a => !guarded a.1 || inCS p) = true := by decide
 
-theorem initPc_iff (p : Pc) : initPc p = true ↔ (p = .iMtx ∨ p = .iExit ∨ p = .iSet ∨ p = .oPub) := by
-  cases p <;> simp [initPc]
-theorem initPc_false (p : Pc) : initPc p = false ↔ (p ≠ .iMtx ∧ p ≠ .iExit ∧ p ≠ .iSet ∧ p ≠ .oPub) := by
-  cases p <;> simp [initPc]
+/-- **Lock discipline.** Every access to the reference counter, to the state pointer and to
+the generator state is made by the thread that owns the mutex. -/
+theorem lockset {n : Nat} {progs : Nat → List Op} {c : Cfg} (h : Reach n progs c) (t : Nat)
+    (a : Loc × Bool × Bool) (ha : a ∈ accs (c.th t).pc) (hg : guarded a.1 = true) : c.sh.owner = some t := by
+  have h1 := List.all_eq_true.1 guarded_inCS_tab _ (mem_allPcs (c.th t).pc)
+  have h2 := List.all_eq_true.1 h1 a ha
+  simp [hg] at h2
+  exact ((inv_reach h).owner t).1 h2
 
-theorem postOnce_iff (p : Pc) : postOnce p = true ↔ (p ≠ .idle ∧ p ≠ .oCas ∧ p ≠ .iMtx ∧ p ≠ .iExit ∧ p ≠ .iSet ∧ p ≠ .oPub ∧ p ≠ .vOnce) := by
-  cases p <;> simp [postOnce]
-theorem postOnce_false (p : Pc) : postOnce p = false ↔ (p = .idle ∨ p = .oCas ∨ p = .iMtx ∨ p = .iExit ∨ p = .iSet ∨ p = .oPub ∨ p = .vOnce) := by
-  cases p <;> simp [postOnce]
-theorem lockPc_iff (p : Pc) : lockPc p = true ↔ (p = .cLock ∨ p = .vLock ∨ p = .xLock ∨ p = .uLock) := by
-  cases p <;> simp [lockPc]
-theorem lockPc_false (p : Pc) : lockPc p = false ↔ (p ≠ .cLock ∧ p ≠ .vLock ∧ p ≠ .xLock ∧ p ≠ .uLock) := by
-  cases p <;> simp [lockPc]
-theorem holdPc_iff (p : Pc) : holdPc p = true ↔ (p = .xLock ∨ p = .xDec ∨ p = .uLock ∨ p = .uBody ∨ p = .uUnlock) := by
-  cases p <;> simp [holdPc]
-theorem holdPc_false (p : Pc) : holdPc p = false ↔ (p ≠ .xLock ∧ p ≠ .xDec ∧ p ≠ .uLock ∧ p ≠ .uBody ∧ p ≠ .uUnlock) := by
-  cases p <;> simp [holdPc]
-theorem inCS_iff (p : Pc) : inCS p = true ↔ (p = .cCtr ∨ p = .cBump ∨ p = .cAlloc ∨ p = .cEntropy ∨ p = .cSetCtr ∨ p = .cUnlockOk ∨ p = .cUnlockErr ∨ p = .vBody ∨ p = .vUnlock ∨ p = .xDec ∨ p = .xFree ∨ p = .xUnlock ∨ p = .uBody ∨ p = .uUnlock) := by
-  cases p <;> simp [inCS]
-theorem inCS_false (p : Pc) : inCS p = false ↔ (p ≠ .cCtr ∧ p ≠ .cBump ∧ p ≠ .cAlloc ∧ p ≠ .cEntropy ∧ p ≠ .cSetCtr ∧ p ≠ .cUnlockOk ∧ p ≠ .cUnlockErr ∧ p ≠ .vBody ∧ p ≠ .vUnlock ∧ p ≠ .xDec ∧ p ≠ .xFree ∧ p ≠ .xUnlock ∧ p ≠ .uBody ∧ p ≠ .uUnlock) := by
-  cases p <;> simp [inCS]
+/-! ### Once-initialisation -/
 
-/-! ### The invariant -/
+/-- **Exactly once.** rngInit is entered at most once in any execution; every thread that has
+passed the once-gate (mtCallOnce returned) does so after the single run has completed
+(the trigger is 1, published after the initialiser's effects). -/
+theorem once_exactly {n : Nat} {progs : Nat → List Op} {c : Cfg} (h : Reach n progs c) :
+    c.sh.initRuns ≤ 1 ∧ ∀ t, postOnce (c.th t).pc = true → c.sh.initRuns = 1 ∧ c.sh.once = 1 := by
+  have hi := inv_reach h
+  constructor
+  · by_cases h0 : c.sh.once = 0
+    · have := (hi.flags0 h0).2.2; omega
+    · have := hi.runs h0; omega
+  · intro t ht
+    have h1 := hi.post t ht
+    exact ⟨hi.runs (by omega), h1⟩
 
-def sumRefs (th : Nat → TState) : Nat → Nat
-  | 0 => 0
-  | k + 1 => sumRefs th k + (th k).refs
-
-structure Inv (c : Cfg) : Prop where
-  owner : ∀ u, inCS (c.th u).pc = true ↔ c.sh.owner = some u
-  onceRange : c.sh.once = 0 ∨ c.sh.once = 1 ∨ c.sh.once = onceMax
-  initRegion : ∀ u, initPc (c.th u).pc = true → c.sh.once = onceMax
-  initUnique : ∀ u v, initPc (c.th u).pc = true → initPc (c.th v).pc = true → u = v
-  post : ∀ u, postOnce (c.th u).pc = true → c.sh.once = 1
-  refsPost : ∀ u, (c.th u).refs ≠ 0 → c.sh.once = 1 ∧ c.sh.inited = true
-  flags0 : c.sh.once = 0 → c.sh.inited = false ∧ c.sh.mtxOk = false ∧ c.sh.initRuns = 0
-  runs : c.sh.once ≠ 0 → c.sh.initRuns = 1
-  flags1 : c.sh.once = 1 → c.sh.inited = c.sh.mtxOk
-  initFlags : ∀ u, ((c.th u).pc = .iMtx → c.sh.inited = false ∧ c.sh.mtxOk = false) ∧
-      ((c.th u).pc = .iExit ∨ (c.th u).pc = .iSet → c.sh.inited = false ∧ c.sh.mtxOk = true) ∧
-      ((c.th u).pc = .oPub → c.sh.inited = c.sh.mtxOk)
-  lockReady : ∀ u, (lockPc (c.th u).pc = true ∨ inCS (c.th u).pc = true) → c.sh.inited = true
-  idleOut : ∀ u, c.n ≤ u → (c.th u).pc = .idle ∧ (c.th u).refs = 0
-  hold : ∀ u, holdPc (c.th u).pc = true → (c.th u).refs ≠ 0
-
-theorem local_owner (sh sh' : Sh) (T T' : TState) (t ch : Nat)
-    (h : stepLocal sh T t ch = some (sh', T')) (h0 : inCS T.pc = true ↔ sh.owner = some t) :
-    (inCS T'.pc = true ↔ sh'.owner = some t) ∧ (∀ u, u ≠ t → (sh'.owner = some u ↔ sh.owner = some u)) := by
-  local_cases h T
-  all_goals (simp_all [inCS_iff, inCS_false, TState.done] <;> omega)
-
-/-- destructs `step c t ch = some c'` into the local step of thread `t` -/
-theorem step_elim {c c' : Cfg} {t ch : Nat} (hs : step c t ch = some c') :
-    t < c.n ∧ ∃ sh' T', stepLocal c.sh (c.th t) t ch = some (sh', T') ∧ c' = c.upd t sh' T' := by
-  unfold step at hs
-  split at hs
-  · cases hs
-  · rename_i hnt
-    split at hs
-    · cases hs
-    · rename_i sh' T' hloc
-      cases hs
-      exact ⟨by omega, sh', T', hloc, rfl⟩
-
-theorem inv_owner {c : Cfg} {t ch : Nat} {sh' : Sh} {T' : TState} (hinv : Inv c)
-    (hloc : stepLocal c.sh (c.th t) t ch = some (sh', T')) :
-    ∀ u, inCS ((c.upd t sh' T').th u).pc = true ↔ (c.upd t sh' T').sh.owner = some u := by
-  have := local_owner _ _ _ _ _ _ hloc (hinv.owner t)
-  intro u
-  by_cases hu : u = t
-  · subst hu; simpa [Cfg.upd] using this.1
-  · have h2 := this.2 u hu
-    have h3 := hinv.owner u
-    simp [Cfg.upd, hu]; rw [h2]; exact h3
-
-/-- closes a per-thread invariant field after a step: case split on "the thread is / is not the
-moving one", then on the program counter of the moving thread -/
-macro "field_cases" hloc:ident c:ident t:ident u:ident : tactic => `(tactic| (
-  by_cases hu : $u:ident = $t:ident
-  · subst hu
-    simp only [Cfg.upd, setTh_same]
-    generalize Cfg.th $c:ident $u:ident = T at *
-    local_cases $hloc:ident T
-    all_goals simp_all [initPc_iff, initPc_false, postOnce_iff, postOnce_false, lockPc_iff, lockPc_false, holdPc_iff, holdPc_false, inCS_iff, inCS_false, onceMax, TState.done, rOK, rERR]
-  · simp only [Cfg.upd, setTh_other _ _ _ _ hu]
-    generalize Cfg.th $c:ident $t:ident = T at *
-    generalize Cfg.th $c:ident $u:ident = U at *
-    local_cases $hloc:ident T
-    all_goals simp_all [initPc_iff, initPc_false, postOnce_iff, postOnce_false, lockPc_iff, lockPc_false, holdPc_iff, holdPc_false, inCS_iff, inCS_false, onceMax, TState.done, rOK, rERR]))
-
-theorem inv_initRegion {c : Cfg} {t ch : Nat} {sh' : Sh} {T' : TState} (hinv : Inv c)
-    (hloc : stepLocal c.sh (c.th t) t ch = some (sh', T')) :
-    ∀ u, initPc ((c.upd t sh' T').th u).pc = true → (c.upd t sh' T').sh.once = onceMax := by
-  intro u
-  have h1 := hinv.initRegion u
-  have h2 := hinv.initRegion t
-  have h3 := hinv.post t
-  have h4 := hinv.post u
-  have h5 := hinv.onceRange
-  have h6 := hinv.initUnique u t
-  field_cases hloc c t u
-
-theorem inv_onceRange {c : Cfg} {t ch : Nat} {sh' : Sh} {T' : TState} (hinv : Inv c)
-    (hloc : stepLocal c.sh (c.th t) t ch = some (sh', T')) :
-    sh'.once = 0 ∨ sh'.once = 1 ∨ sh'.once = onceMax := by
-  have h5 := hinv.onceRange
-  generalize c.th t = T at *
-  local_cases hloc T
-  all_goals simp_all [onceMax]
-
-theorem inv_post {c : Cfg} {t ch : Nat} {sh' : Sh} {T' : TState} (hinv : Inv c)
-    (hloc : stepLocal c.sh (c.th t) t ch = some (sh', T')) :
-    ∀ u, postOnce ((c.upd t sh' T').th u).pc = true → (c.upd t sh' T').sh.once = 1 := by
-  intro u
-  have h1 := hinv.initRegion u
-  have h2 := hinv.initRegion t
-  have h3 := hinv.post t
-  have h4 := hinv.post u
-  have h5 := hinv.onceRange
-  have h6 := hinv.refsPost t
-  field_cases hloc c t u
-
-theorem inv_initUnique {c : Cfg} {t ch : Nat} {sh' : Sh} {T' : TState} (hinv : Inv c)
-    (hloc : stepLocal c.sh (c.th t) t ch = some (sh', T')) :
-    ∀ u v, initPc ((c.upd t sh' T').th u).pc = true → initPc ((c.upd t sh' T').th v).pc = true → u = v := by
-  intro u v
-  have h0 := hinv.initUnique u v
-  have h1 := hinv.initUnique u t
-  have h2 := hinv.initUnique t v
-  have h3 := hinv.initRegion u
-  have h4 := hinv.initRegion v
-  have h5 := hinv.initRegion t
-  by_cases hu : u = t <;> by_cases hv : v = t
-  · subst hu; subst hv; intros; rfl
-  · subst hu
-    simp only [Cfg.upd, setTh_same, setTh_other _ _ _ _ hv]
-    generalize c.th u = T at *
-    generalize c.th v = V at *
-    local_cases hloc T
-    all_goals simp_all [initPc_iff, initPc_false, onceMax, TState.done]
-  · subst hv
-    simp only [Cfg.upd, setTh_same, setTh_other _ _ _ _ hu]
-    generalize c.th v = T at *
-    generalize c.th u = U at *
-    local_cases hloc T
-    all_goals simp_all [initPc_iff, initPc_false, onceMax, TState.done]
-  · simp only [Cfg.upd, setTh_other _ _ _ _ hu, setTh_other _ _ _ _ hv]
-    exact h0
-
-theorem inv_refsPost {c : Cfg} {t ch : Nat} {sh' : Sh} {T' : TState} (hinv : Inv c)
-    (hloc : stepLocal c.sh (c.th t) t ch = some (sh', T')) :
-    ∀ u, ((c.upd t sh' T').th u).refs ≠ 0 → (c.upd t sh' T').sh.once = 1 ∧ (c.upd t sh' T').sh.inited = true := by
-  intro u
-  have h1 := hinv.refsPost u
-  have h2 := hinv.refsPost t
-  have h3 := hinv.post t
-  have h4 := hinv.initRegion t
-  have h5 := hinv.lockReady t
-  field_cases hloc c t u
-
-theorem inv_flags {c : Cfg} {t ch : Nat} {sh' : Sh} {T' : TState} (hinv : Inv c)
-    (hloc : stepLocal c.sh (c.th t) t ch = some (sh', T')) :
-    (sh'.once = 0 → sh'.inited = false ∧ sh'.mtxOk = false ∧ sh'.initRuns = 0) ∧
-    (sh'.once ≠ 0 → sh'.initRuns = 1) ∧ (sh'.once = 1 → sh'.inited = sh'.mtxOk) := by
-  have h1 := hinv.flags0
-  have h2 := hinv.runs
-  have h3 := hinv.flags1
-  have h4 := hinv.initRegion t
-  have h5 := hinv.initFlags t
-  have h6 := hinv.onceRange
+/-- **Visibility.** Once the trigger is published, the effects of the initialiser (the flag
+`_inited`, the mutex object) never change again and agree with each other. -/
+theorem init_effects_stable {n : Nat} {progs : Nat → List Op} {c c' : Cfg} {t ch : Nat}
+    (h : Reach n progs c) (h1 : c.sh.once = 1) (hs : step c t ch = some c') :
+    c'.sh.once = 1 ∧ c'.sh.inited = c.sh.inited ∧ c'.sh.mtxOk = c.sh.mtxOk ∧ c.sh.inited = c.sh.mtxOk := by
+  have hi := inv_reach h
+  obtain ⟨_, sh', T', hloc, rfl⟩ := step_elim hs
+  have h2 := hi.initRegion t
+  have h3 := hi.flags1 h1
+  simp only [Cfg.upd]
   generalize c.th t = T at *
   local_cases hloc T
   all_goals simp_all [initPc_iff, onceMax]
 
-theorem inv_initFlags {c : Cfg} {t ch : Nat} {sh' : Sh} {T' : TState} (hinv : Inv c)
-    (hloc : stepLocal c.sh (c.th t) t ch = some (sh', T')) :
-    ∀ u, (((c.upd t sh' T').th u).pc = .iMtx → (c.upd t sh' T').sh.inited = false ∧ (c.upd t sh' T').sh.mtxOk = false) ∧
-      (((c.upd t sh' T').th u).pc = .iExit ∨ ((c.upd t sh' T').th u).pc = .iSet →
-        (c.upd t sh' T').sh.inited = false ∧ (c.upd t sh' T').sh.mtxOk = true) ∧
-      (((c.upd t sh' T').th u).pc = .oPub → (c.upd t sh' T').sh.inited = (c.upd t sh' T').sh.mtxOk) := by
-  intro u
-  have h1 := hinv.initFlags u
-  have h2 := hinv.initFlags t
-  have h3 := hinv.initUnique u t
-  have h4 := hinv.flags0
-  have h5 := hinv.initRegion u
-  field_cases hloc c t u
+/-- a thread that holds the mutex or is about to take it finds the mutex object created -/
+theorem mutex_ready {n : Nat} {progs : Nat → List Op} {c : Cfg} (h : Reach n progs c) (t : Nat)
+    (hp : lockPc (c.th t).pc = true ∨ inCS (c.th t).pc = true) : c.sh.inited = true ∧ c.sh.mtxOk = true := by
+  have hi := inv_reach h
+  have h1 := hi.lockReady t hp
+  have hpost : postOnce (c.th t).pc = true := by
+    rcases hp with hp | hp
+    · rw [lockPc_iff] at hp; rw [postOnce_iff]; rcases hp with hp | hp | hp | hp <;> simp [hp]
+    · rw [inCS_iff] at hp; rw [postOnce_iff]
+      rcases hp with hp | hp | hp | hp | hp | hp | hp | hp | hp | hp | hp | hp | hp | hp <;> simp [hp]
+  have h2 := hi.flags1 (hi.post t hpost)
+  exact ⟨h1, by rw [← h2]; exact h1⟩
 
-theorem inv_lockReady {c : Cfg} {t ch : Nat} {sh' : Sh} {T' : TState} (hinv : Inv c)
-    (hloc : stepLocal c.sh (c.th t) t ch = some (sh', T')) :
-    ∀ u, (lockPc ((c.upd t sh' T').th u).pc = true ∨ inCS ((c.upd t sh' T').th u).pc = true) →
-      (c.upd t sh' T').sh.inited = true := by
-  intro u
-  have h1 := hinv.lockReady u
-  have h2 := hinv.lockReady t
-  have h3 := hinv.refsPost t
-  field_cases hloc c t u
+/-! ### Absence of data races -/
 
-theorem inv_idleOut {c : Cfg} {t : Nat} {sh' : Sh} {T' : TState} (hinv : Inv c) (ht : t < c.n) :
-    ∀ u, (c.upd t sh' T').n ≤ u → ((c.upd t sh' T').th u).pc = .idle ∧ ((c.upd t sh' T').th u).refs = 0 := by
-  intro u hu
-  have h1 := hinv.idleOut u
-  have : u ≠ t := by simp [Cfg.upd] at hu; omega
-  simp only [Cfg.upd, setTh_other _ _ _ _ this]
-  exact h1 (by simpa [Cfg.upd] using hu)
+/-- two accesses conflict: same location, at least one write, not both atomic -/
+def conflict (a b : Loc × Bool × Bool) : Bool := a.1 == b.1 && (a.2.1 || b.2.1) && !(a.2.2 && b.2.2)
 
-theorem inv_hold {c : Cfg} {t ch : Nat} {sh' : Sh} {T' : TState} (hinv : Inv c)
-    (hloc : stepLocal c.sh (c.th t) t ch = some (sh', T')) :
-    ∀ u, holdPc ((c.upd t sh' T').th u).pc = true → ((c.upd t sh' T').th u).refs ≠ 0 := by
-  intro u
-  have h1 := hinv.hold u
-  have h2 := hinv.hold t
-  field_cases hloc c t u
+def conflictPc (p q : Pc) : Bool := (accs p).any fun a => (accs q).any fun b => conflict a b
 
-theorem inv_step {c c' : Cfg} {t ch : Nat} (hinv : Inv c) (hs : step c t ch = some c') : Inv c' := by
-  obtain ⟨ht, sh', T', hloc, rfl⟩ := step_elim hs
-  have hf := inv_flags hinv hloc
-  exact {
-    owner := inv_owner hinv hloc
-    onceRange := inv_onceRange hinv hloc
-    initRegion := inv_initRegion hinv hloc
-    initUnique := inv_initUnique hinv hloc
-    post := inv_post hinv hloc
-    refsPost := inv_refsPost hinv hloc
-    flags0 := hf.1
-    runs := hf.2.1
-    flags1 := hf.2.2
-    initFlags := inv_initFlags hinv hloc
-    lockReady := inv_lockReady hinv hloc
-    idleOut := inv_idleOut hinv ht
-    hold := inv_hold hinv hloc }
+/-- a data race: two different threads whose next steps perform conflicting accesses
+(lock acquisition counts as a read of the mutex object even while the thread is blocked) -/
+def Race (c : Cfg) : Prop :=
+  ∃ t u, t ≠ u ∧ ∃ a ∈ accs (c.th t).pc, ∃ b ∈ accs (c.th u).pc, conflict a b = true
 
-theorem inv_init (n : Nat) (progs : Nat → List Op) : Inv (init n progs) := by
-  have hpc : ∀ u, ((init n progs).th u).pc = .idle := by intro u; simp only [init]; split <;> rfl
-  have hrefs : ∀ u, ((init n progs).th u).refs = 0 := by intro u; simp only [init]; split <;> rfl
-  have hsh : (init n progs).sh = {} := rfl
-  constructor
-  all_goals (intros; simp_all [initPc_iff, postOnce_iff, lockPc_iff, holdPc_iff, inCS_iff, onceMax])
+theorem conflict_class_tab : (allPcs.all fun p => allPcs.all fun q => !conflictPc p q ||
+    ((inCS p && inCS q) || (initPc p && initPc q) || (initPc p && postOnce q) || (postOnce p && initPc q))) = true := by
+  decide
 
-theorem inv_reach {n : Nat} {progs : Nat → List Op} {c : Cfg} (h : Reach n progs c) : Inv c := by
-  induction h with
-  | init => exact inv_init n progs
-  | step _ hs ih => exact inv_step ih hs
+/-- **No data race** in any reachable configuration, for any number of threads. -/
+theorem no_data_race {n : Nat} {progs : Nat → List Op} {c : Cfg} (h : Reach n progs c) : ¬ Race c := by
+  rintro ⟨t, u, htu, a, ha, b, hb, hab⟩
+  have hi := inv_reach h
+  have hc : conflictPc (c.th t).pc (c.th u).pc = true := by
+    simp only [conflictPc, List.any_eq_true]
+    exact ⟨a, ha, b, hb, hab⟩
+  have h1 := List.all_eq_true.1 (List.all_eq_true.1 conflict_class_tab _ (mem_allPcs (c.th t).pc)) _ (mem_allPcs (c.th u).pc)
+  simp only [hc, Bool.not_true, Bool.false_or, Bool.or_eq_true, Bool.and_eq_true] at h1
+  rcases h1 with ((h1 | h1) | h1) | h1
+  · exact htu (mutual_exclusion h t u h1.1 h1.2)
+  · exact htu (hi.initUnique t u h1.1 h1.2)
+  · have := hi.initRegion t h1.1; have := hi.post u h1.2; simp [onceMax] at *; omega
+  · have := hi.initRegion u h1.2; have := hi.post t h1.1; simp [onceMax] at *; omega
+
+/-! ### Reference counting -/
+
+/-- **Balanced reference count.** `_ctr` always equals the number of references held by the
+threads; when all references have been given back (and nobody is inside a critical section)
+the counter is 0 and the generator state has been released. -/
+theorem refcount_balanced {n : Nat} {progs : Nat → List Op} {c : Cfg} (h : Reach n progs c) :
+    c.sh.ctr = sumRefs c.th c.n ∧
+    ((∀ u, (c.th u).refs = 0) → c.sh.owner = none → c.sh.ctr = 0 ∧ c.sh.alive = false) := by
+  have h2 := inv2_reach h
+  refine ⟨h2.cnt, fun hz ho => ?_⟩
+  have hc : c.sh.ctr = 0 := by rw [h2.cnt, sumRefs_zero _ _ hz]
+  refine ⟨hc, ?_⟩
+  have := h2.free ho
+  cases ha : c.sh.alive
+  · rfl
+  · exact absurd (this.1 ha) (by simp [hc])
+
+/-- the counter is never decremented at 0 -/
+theorem no_underflow {n : Nat} {progs : Nat → List Op} {c : Cfg} (h : Reach n progs c) (t : Nat)
+    (hp : (c.th t).pc = .xDec) : c.sh.ctr ≠ 0 := by
+  have hi := inv_reach h
+  have htn : t < c.n := by
+    by_cases hlt : t < c.n
+    · exact hlt
+    · have := (hi.idleOut t (by omega)).1; rw [hp] at this; cases this
+  exact xdec_pos hi (inv2_reach h) htn hp
+
+/-- **No use after release.** Whenever a thread generates (rngStepR / rngStepR2 / rngRekey
+inside the critical section) or bumps the counter, the generator state exists. -/
+theorem use_safe {n : Nat} {progs : Nat → List Op} {c : Cfg} (h : Reach n progs c) (t : Nat)
+    (hp : (c.th t).pc = .uBody ∨ (c.th t).pc = .cBump ∨ (c.th t).pc = .xDec) : c.sh.alive = true := by
+  have hi := inv_reach h
+  have h2 := inv2_reach h
+  have hcs : inCS (c.th t).pc = true := by rcases hp with hp | hp | hp <;> simp [hp, inCS]
+  have ho := (hi.owner t).1 hcs
+  have hmid : midPc (c.th t).pc = false := by rcases hp with hp | hp | hp <;> simp [hp, midPc]
+  have hrel := h2.held t ho hmid
+  have htn : t < c.n := by
+    by_cases hlt : t < c.n
+    · exact hlt
+    · have := (hi.idleOut t (by omega)).1; rcases hp with hp | hp | hp <;> (rw [hp] at this; cases this)
+  have hctr : c.sh.ctr ≠ 0 := by
+    rcases hp with hp | hp | hp
+    · have := hi.hold t (by simp [holdPc_iff, hp])
+      have hle := refs_le_sum c.th t c.n htn
+      have := h2.cnt
+      omega
+    · exact h2.bump t hp
+    · exact xdec_pos hi h2 htn hp
+  exact hrel.2 hctr
+
+/-! ### Output blocks -/
+
+/-- **Distinct blocks.** No two blocks ever handed out (to the same or to different threads)
+are the same position of the same key's CTR stream. -/
+theorem distinct_blocks {n : Nat} {progs : Nat → List Op} {c : Cfg} (h : Reach n progs c) :
+    c.sh.log.Pairwise (fun a b => ¬ SamePos a b) :=
+  (inv3_reach h).nodup
+
+/-- **Requests are filled.** The generation step of a request for `k` blocks hands exactly `k`
+new blocks to the requesting thread (appended to the log), whatever the other threads do. -/
+theorem request_filled (sh sh' : Sh) (T T' : TState) (t ch : Nat) (hp : T.pc = .uBody) (hk : T.kind ≠ .rekey)
+    (h : stepLocal sh T t ch = some (sh', T')) :
+    ∃ bs, sh'.log = sh.log ++ bs ∧ bs.length = T.blocks ∧ ∀ b ∈ bs, b.tid = t := by
+  obtain ⟨pc, prog, refs, src, kind, blocks, tmp, results⟩ := T
+  simp only at hp hk
+  subst hp
+  cases kind <;> simp only [stepLocal] at h
+  · cases h
+    exact ⟨_, rfl, length_fresh _ _ _ _, fun b hb => ((mem_fresh _ _ _ _ _).1 hb).1⟩
+  · cases h
+    exact ⟨_, rfl, length_fresh _ _ _ _, fun b hb => ((mem_fresh _ _ _ _ _).1 hb).1⟩
+  · exact absurd rfl hk
+
+/-! ### Non-vacuity: concrete schedules reach the interesting states -/
+
+def demoProgs : Nat → List Op
+  | 0 => [.create false, .use .stepR2 2, .close]
+  | 1 => [.create true, .use .stepR 1, .use .rekey 0, .close]
+  | _ => [.isValid]
+
+def rep (t k : Nat) : List (Nat × Nat) := List.replicate k (t, 0)
+
+/-- thread 0 creates the generator (thread 1 races into the once-gate meanwhile), thread 1 joins
+(second reference), thread 0 generates two blocks, thread 1 one block -/
+def demoSched : List (Nat × Nat) := rep 0 2 ++ rep 1 2 ++ rep 0 12 ++ rep 1 6 ++ rep 0 4 ++ rep 1 4
+
+example : (runSched (init 3 demoProgs) demoSched).sh.ctr = 2 := by decide +kernel
+example : (runSched (init 3 demoProgs) demoSched).sh.log.length = 3 := by decide +kernel
+example : (runSched (init 3 demoProgs) demoSched).sh.initRuns = 1 := by decide +kernel
 
 end Bee2V.C18
